@@ -208,10 +208,16 @@ pub(crate) fn encode_internal<W: Write, S: Borrow<Schema>>(
         Value::Enum(i, _) => encode_int(*i as i32, writer),
         Value::Union(idx, item) => {
             if let Schema::Union(ref inner) = *schema {
-                let inner_schema = inner
-                    .schemas
-                    .get(*idx as usize)
-                    .expect("Invalid Union validation occurred");
+                // The value may not have been validated (or, for a record given without its union
+                // wrapper, is being tried against a variant it does not belong to)
+                let inner_schema =
+                    inner
+                        .schemas
+                        .get(*idx as usize)
+                        .ok_or(Details::GetUnionVariant {
+                            index: *idx as i64,
+                            num_variants: inner.schemas.len(),
+                        })?;
                 let index_len = encode_long(*idx as i64, &mut *writer)?;
                 let item_len =
                     encode_internal(item, inner_schema, names, enclosing_namespace, &mut *writer)?;
